@@ -7,7 +7,7 @@ from symx import logic as L
 from .world import World
 from .program import Program, show, do_query, QUERY_KINDS
 from .common import Driver, veq, diff_sig
-from .skeletons import pick, bf_opts, U7
+from .skeletons import pick, bf_opts, U7, UN3, skeleton
 from .mutate import mutate
 from .refmodel import DirSize
 
@@ -37,6 +37,8 @@ def families(tier):
         {'name': 'nested', 'params': {'hist': 'B', 'modes': ['ok', 'raise_after', 'no_create']}, 'weight': 2},
         {'name': 'siblings', 'params': {'hist': 'BB', 'modes': ['ok', 'raise_before']}, 'weight': 2},
         {'name': 'swap', 'params': {'hist': 'BB'}, 'weight': 1},
+        {'name': 'N3', 'params': {'hist': 'BB', 'universe': UN3, 'kinds': ['is_dir'], 'roles': ['o'],
+                                  'bf_modes': ['ok', 'raise_after']}, 'weight': 3},
     ]
     if tier == 'quick':
         return q
@@ -65,6 +67,8 @@ def programs(eng, fam, P):
         b1 = [('BF', 'o/d', bf_opts(eng, '0', ['ok', 'raise_after'], catch=True), [])]
         b2 = [('BF', 'o/d/g', bf_opts(eng, '1', ['ok', 'raise_after'], catch=True), [])]
         return ([b1, b2] if first == 0 else [b2, b1]), ['o/d', 'o/d/g']
+    if fam == 'N3':
+        return skeleton(eng, 'N3', P), ['o/w', 'o/m/x', 'o/d/g']
     if fam == 'nest3':
         return [[('BF', 'o/d/g', bf_opts(eng, '0', modes, catch=True),
                   [('SB', 's', {'catch': True}, [('BF', 'o/d/e/h', bf_opts(eng, '1', modes, catch=True),
@@ -184,8 +188,8 @@ def harness(eng, fam, P):
                 nb += 1
                 # the probe needs Side objects to issue queries: build them through the driver hook
                 impl, ref = _build_with_probe(d, prog, pr)
-                d.check_same('C04.build', (fam, 'build%d' % nb))
                 pr.compare(nb)
+                d.guard_same()
                 if any(':start' in k or ':written' in k for k in pr.answers['impl']) or True:
                     pass
             else:
